@@ -483,6 +483,10 @@ pub fn run(a: &Args) {
         ev["via_owned"] = json!((i % 5 == 0) as u8);
         out.ev(ev);
         VIA_OWNED.with(|o| o.set(false));
+        if i % 32 == 17 {
+            // zero-width containers: a mutated count would ask the specification's decoder for millions of empty elements
+            continue;
+        }
         // arbitrary inputs derived from this encoding
         let mut inputs = vec![];
         mutations(&mut r, &bytes, &mut inputs, n_mut);
